@@ -20,6 +20,7 @@ struct FakeDir {
     // POSIX: "the returned pointer may be overwritten by another call to readdir() on the same stream" — the simulated
     // stream does exactly that (one slot, rewritten by every call, freed by closedir), which glibc only does once per 32 KiB
     dirent* slot = nullptr;
+    DIR* real = nullptr;   // kept open until closedir(): a simulated stream costs a descriptor exactly like a real one
     ~FakeDir() { delete slot; }
 };
 std::set<FakeDir*> g_fake;
@@ -87,7 +88,7 @@ DIR* opendir(const char* name) {
     if (!d) return nullptr;
     auto* f = new FakeDir();
     while (dirent* e = r_readdir(d)) f->ents.push_back(*e);
-    r_closedir(d);
+    f->real = d;
     // order decided by the simulator (Fisher-Yates over recorded choices), '.' and '..' land anywhere
     for (size_t i = 0; i + 1 < f->ents.size(); i++) {
         size_t j = i + (size_t)sim::choose((int)(f->ents.size() - i), 0);
@@ -119,6 +120,7 @@ int closedir(DIR* d) {
     auto* f = reinterpret_cast<FakeDir*>(d);
     if (!g_fake.count(f)) return r_closedir(d);
     g_fake.erase(f);
+    if (f->real) r_closedir(f->real);
     delete f;
     g_handles--;
     return 0;
